@@ -285,6 +285,7 @@ func textEdits(o *render.Out, r *prng.Rand) []edit {
 			if s.Len >= 2 {
 				del("unterminated-string", end-1, 1)
 				ins("illegal-escape", s.Off+1, []string{`\q`, `\xZ1`, `\u12G4`, `\U00110000`, `\1`}[r.Intn(5)])
+				ins("hex-escape-with-sign", s.Off+1, []string{`\x+4`, `\x-1`, `\u+041`, `\u-001`, `\U+0000041`, `\U-0000041`}[r.Intn(6)])
 				ins("escape-beyond-unicode", s.Off+1, []string{`\U00110000`, `\UFFFFFFFF`, `\U80000000`, `\U7FFFFFFF`, `\Uffff0041`, `\U0011FFFF`, `\UF0000000`}[r.Intn(7)])
 				if s.Aux == 0 {
 					ins("newline-in-string", s.Off+1, "\n")
@@ -494,10 +495,11 @@ func (s torn) Run(c *Ctx, i int) {
 		// correctly framed values that are malformed in themselves, appended to the document (the byte-level catalogue
 		// cannot make them: they need more bytes than the field they would replace)
 		ar := r.Fork()
-		for j := 0; j < 4; j++ {
-			b := append(append([]byte{}, data...), fractionNotBelowOne(ar)...)
+		for j := 0; j < 6; j++ {
+			atom, kind := framedInvalidAtom(ar)
+			b := append(append([]byte{}, data...), atom...)
 			if e := classify(b); e != nil && !e.Unsure {
-				s.runBoth(c, b, "timestamp-fraction-not-below-one(framed)", e.Rule)
+				s.runBoth(c, b, kind, e.Rule)
 			} else {
 				c.Count("catalogue.framed-atom-not-judged(discarded)", 1)
 			}
